@@ -47,7 +47,7 @@ TInit ==
   /\ tid \in 1..Len(Traces)
   /\ l = 1
   /\ mem = Empty /\ db = EmptyDb /\ proc = "running" /\ lastW = Empty
-  /\ started = FALSE /\ cycleReq = FALSE /\ wired = {} /\ picked = {}
+  /\ started = FALSE /\ cycleReq = FALSE /\ wired = {} /\ picked = {} /\ busy = {}
   /\ act = "Init" /\ nops = 0 /\ lives = 0
 
 IsEv(e) == l <= Len(T) /\ Rec.ev = e
